@@ -27,6 +27,11 @@ pub struct AccessLog {
     /// (kind, file offset, len)
     pub events: Vec<(AccessKind, usize, usize)>,
     pub outside_mapping: usize,
+    /// read path in force (set by the battery before each path) and, parallel to `events`, the
+    /// index into `path_names` of the path that made the access
+    pub cur_path: u16,
+    pub path_names: Vec<String>,
+    pub event_paths: Vec<u16>,
 }
 
 #[derive(Default)]
@@ -56,6 +61,22 @@ pub fn install() {
 }
 
 impl Hub {
+    /// Labels the accesses that follow with the read path that makes them (C20 battery).
+    pub fn set_access_path(&self, path: &str) {
+        let mut g = self.lock();
+        if !g.access.enabled {
+            return;
+        }
+        let ix = match g.access.path_names.iter().position(|p| p == path) {
+            Some(i) => i,
+            None => {
+                g.access.path_names.push(path.to_string());
+                g.access.path_names.len() - 1
+            }
+        };
+        g.access.cur_path = ix as u16;
+    }
+
     pub fn lock(&self) -> std::sync::MutexGuard<'_, HubState> {
         self.st.lock().unwrap_or_else(|e| e.into_inner())
     }
@@ -172,13 +193,19 @@ impl Sim for Hub {
                 let base = g.access.mmap_base;
                 let mlen = g.access.mmap_len;
                 if addr >= base && addr < base + mlen.max(1) {
+                    let cp = g.access.cur_path;
+                    g.access.event_paths.push(cp);
                     g.access.events.push((kind, addr - base, len));
                 } else {
                     // heap buffer of an I/O source, or another mapping
                     g.access.outside_mapping += 1;
                 }
             }
-            AccessKind::FileRead => g.access.events.push((kind, addr, len)),
+            AccessKind::FileRead => {
+                let cp = g.access.cur_path;
+                g.access.event_paths.push(cp);
+                g.access.events.push((kind, addr, len))
+            }
         }
     }
 }
